@@ -505,6 +505,60 @@ pub struct Scenario {
     /// wrong in the same way as the result it is compared with
     #[serde(default)]
     pub fresh_reference: bool,
+    /// environment variables set (Some) or removed (None) in the executing
+    /// process for the duration of the run: the rendering is a function of
+    /// bytes, configuration and width, not of the process environment
+    #[serde(default)]
+    pub env: Vec<(String, Option<String>)>,
+}
+
+/// Environment variables the simulator may set, empty or remove.
+pub const ENV_VARS: &[(&str, &str)] = &[
+    ("NO_COLOR", "1"),
+    ("CLICOLOR", "0"),
+    ("CLICOLOR_FORCE", "1"),
+    ("TERM", "dumb"),
+    ("COLORTERM", "truecolor"),
+    ("COLUMNS", "7"),
+    ("LINES", "3"),
+    ("LANG", "tr_TR.UTF-8"),
+    ("LC_ALL", "ja_JP.eucJP"),
+    ("LC_CTYPE", "C"),
+    ("TZ", "Pacific/Kiritimati"),
+    ("HOME", "/nonexistent"),
+    ("TMPDIR", "/nonexistent"),
+    ("RUST_LOG", "trace"),
+    ("HTML2TEXT_WIDTH", "3"),
+    ("WIDTH", "3"),
+    ("USER", "nobody"),
+    ("HOSTNAME", "elsewhere"),
+    ("SHELL", "/bin/false"),
+    ("DEBUG", "1"),
+];
+
+/// Draw a run's environment changes (none for three runs in four).
+pub fn gen_env(er: &mut crate::prng::Rng) -> Vec<(String, Option<String>)> {
+    if !er.chance(1, 4) {
+        return vec![];
+    }
+    let n = er.urange(1, 3);
+    let mut v: Vec<(String, Option<String>)> = Vec::new();
+    for _ in 0..n {
+        // the colour / terminal variables are the likeliest to be consulted
+        let i = if er.chance(1, 2) { er.usize_below(5) } else { er.usize_below(ENV_VARS.len()) };
+        let (k, val) = ENV_VARS[i];
+        if v.iter().any(|(kk, _)| kk == k) {
+            continue;
+        }
+        let val = match er.below(6) {
+            0 => None,
+            1 => Some(String::new()),
+            2 => Some(er.pick(&["0", "1", "true", "never", "xterm-256color", "-1", "99999999999999999999", "\u{e9}"]).to_string()),
+            _ => Some(val.to_string()),
+        };
+        v.push((k.to_string(), val));
+    }
+    v
 }
 
 impl Scenario {
